@@ -1,2 +1,174 @@
-(* C02 statements pinned here *)
-From A1 Require Import Uper.Reader.
+(* C02 — UPER encodings are bit-exact X.691 within the conformance profile: for every type inside
+   the conformance profile (DESIGN.md section 4) and every value, the bits produced by the UPER
+   writer equal the canonical unaligned PER encoding defined by ITU-T X.691 for the source ASN.1
+   type, and the UPER reader decodes every such canonical encoding to that value.
+   (Statements pinned here; proofs in Uper/ConformanceProofs.v.  Model: Uper/Writer.v, Uper/Reader.v;
+   X.691 at type level: Uper/X691Type.v ([x691 t v = None]: v is not a value of t) over the primitive
+   transcriptions of Per/X691.v; [enc]: the reference encoder of Uper/Spec.v, equal to the writer by
+   C01_writer_is_reference.  Both cargo profiles: [forall m : mode].)
+
+   Vocabulary:
+     [in_profile t]   descriptor-level image of the profile: INTEGER with both bounds or none (an
+                      extension marker only with bounds), SIZE with both bounds or none, recursively;
+     [sat t v]        v is a value of the ASN.1 type t (constraints hold unless extensible, characters
+                      in the alphabet, indices in range);
+     [Known_C02 t v]  some node of (t, v) lies in one of the deviation classes below (each with a
+                      witness [C02_refuted_*]; the model reproduces the crate):
+       size_upper_bound_64k     an in-root size under an upper bound >= 65536 (F02-1 / F10-1);
+       fragmentation_16k        >= 16384 characters / bits / elements under the unconstrained length
+                                form: known-multiplier strings, BIT STRING, SEQUENCE OF (F02-2);
+       open_type_16k            an open type (extension addition, extension alternative) with >= 16384
+                                octets of content: written as X.691 says, not read back (F01-3);
+       empty_open_type          an open type whose content encodes to zero bits (F02-3);
+       mandatory_choice_addition_inline   a mandatory CHOICE component after the marker (F02-4);
+       more_than_64_additions   more than 64 extension additions, one present (11.9.3.4 second form);
+       first_addition_absent    first addition absent, a later one present: refused (sanctioned by C03);
+       (INTEGER) ~ is_i64 z     a value of a u64 INTEGER above i64::MAX travels as its i64 reinterpretation. *)
+From A1 Require Import Uper.Spec Uper.X691Type Uper.Proofs Uper.ConformanceProofs.
+Local Open Scope N_scope.
+
+(** * the reference encoder (= the writer, C01) produces exactly the X.691 encoding *)
+Theorem C02_reference_is_X691 : forall m t v,
+  wf_ty t -> wf_val t v -> in_profile t -> sat t v -> ~ Known_C02 t v ->
+  exists bs, x691 t v = Some bs /\ enc m t v = Ok bs.
+Proof. exact reference_is_x691_sat. Qed.
+
+(* the same for any value on which the transcription is defined, and: it is defined on every value
+   of the type outside the classes *)
+Theorem C02_reference_is_X691_defined : forall m t v,
+  wf_ty t -> wf_val t v -> in_profile t -> x691 t v <> None -> ~ Known_C02 t v ->
+  exists bs, x691 t v = Some bs /\ enc m t v = Ok bs.
+Proof. exact reference_is_x691. Qed.
+
+Theorem C02_x691_defined_on_values : forall t,
+  wf_ty t -> in_profile t -> forall v, wf_val t v -> sat t v -> ~ Known_C02 t v -> x691 t v <> None.
+Proof. exact sat_defined. Qed.
+
+(** * the writer's bits are the X.691 encoding (with C01_writer_is_reference) *)
+Theorem C02_writer_is_X691 : forall m t v bs w,
+  wf_ty t -> wf_val t v -> in_profile t -> ~ Known_C02 t v ->
+  x691 t v = Some bs -> wst_wf w -> w_scope w = None ->
+  write_ty m t v w = Ok (w_append w bs).
+Proof. exact writer_is_x691. Qed.
+
+(** * the reader decodes every X.691 encoding to the value, consuming exactly its bits
+      (with C01_reader_inverts_reference; the classes of C01 are inside [Known_C02]) *)
+Theorem C02_reader_accepts_X691 : forall m t v bs,
+  wf_ty t -> wf_val t v -> in_profile t -> ~ Known_C02 t v ->
+  x691 t v = Some bs ->
+  forall s tail, rsrc s bs tail ->
+  read_ty m t (r_of_src s) = Ok (v, r_of_src (src_adv s (bl bs) tail)).
+Proof. exact reader_accepts_x691. Qed.
+
+(** * what X.691 does not encode (constraint violated and not extensible, character outside the
+      alphabet) is not encoded by the writer either *)
+Theorem C02_not_a_value_rejected : forall m t v w,
+  wf_ty t -> wf_val t v -> in_profile t -> ~ Known_C02 t v ->
+  x691 t v = None -> wst_wf w -> w_scope w = None -> is_ok (write_ty m t v w) = false.
+Proof. exact not_a_value_rejected. Qed.
+
+Theorem C02_not_a_value_not_encoded : forall m t,
+  wf_ty t -> in_profile t -> forall v, wf_val t v -> ~ Known_C02 t v ->
+  x691 t v = None -> is_ok (enc m t v) = false.
+Proof. exact not_a_value_not_encoded. Qed.
+
+Theorem C02_writer_exact : forall m t v w,
+  wf_ty t -> wf_val t v -> in_profile t -> ~ Known_C02 t v -> wst_wf w -> w_scope w = None ->
+  match x691 t v with
+  | Some bs => write_ty m t v w = Ok (w_append w bs)
+  | None => is_ok (write_ty m t v w) = false
+  end.
+Proof. exact writer_exact. Qed.
+
+Theorem C02_known_C01_inside : forall m t v bs,
+  wf_ty t -> in_profile t -> wf_val t v -> x691 t v = Some bs -> ~ Known_C02 t v -> ~ Known_C01 m t v.
+Proof. intros m t v bs H1 H2 H3 H4 H5. exact (known_c01_c02 m t H1 H2 v bs H3 H4 H5). Qed.
+
+(** * witnesses of the deviation classes ([deviates m t v = true] implies
+      [enc m t v <> match x691 t v with Some b => Ok b | None => Err 0 end]) *)
+Theorem C02_deviates_means : forall m t v, deviates m t v = true -> enc m t v <> x691_res t v.
+Proof. exact deviates_neq. Qed.
+
+Theorem C02_refuted_size_upper_bound_64k :
+  exists m t v, wf_ty t /\ wf_val t v /\ in_profile t /\
+    (exists lo hi ext bs, t = TOctets lo hi ext /\ v = VOctets bs /\ size_upper_bound_64k lo hi (blen bs)) /\
+    Known_C02 t v /\ deviates m t v = true.
+Proof. exact refuted_size_upper_bound_64k. Qed.
+
+Theorem C02_refuted_fragmentation_16k :
+  exists m t v, wf_ty t /\ wf_val t v /\ in_profile t /\
+    (exists c lo hi ext cs, t = TStr c lo hi ext /\ v = VStr cs /\ fragmentation_16k lo hi ext (N.of_nat (length cs))) /\
+    Known_C02 t v /\ deviates m t v = true.
+Proof. exact refuted_fragmentation_16k. Qed.
+
+Theorem C02_refuted_empty_open_type :
+  exists m t v, wf_ty t /\ wf_val t v /\ in_profile t /\
+    (t = w3_ty /\ v = w3_val /\ empty_open_type TNull VNull) /\
+    Known_C02 t v /\ deviates m t v = true.
+Proof. exact refuted_empty_open_type. Qed.
+
+Theorem C02_refuted_mandatory_choice_addition_inline :
+  exists m t v, wf_ty t /\ wf_val t v /\ in_profile t /\
+    (t = w4_ty /\ v = w4_val /\ mandatory_choice_addition_inline FReq (TChoice [TBool] 1 false)) /\
+    Known_C02 t v /\ deviates m t v = true.
+Proof. exact refuted_mandatory_choice_addition_inline. Qed.
+
+Theorem C02_refuted_more_than_64_additions :
+  exists m t v, wf_ty t /\ wf_val t v /\ in_profile t /\
+    (exists fs so fc ea vals, t = TSeq fs so fc ea /\ v = VSeq vals /\
+       more_than_64_additions (skipn (root_len fs ea) (presents fs vals))) /\
+    Known_C02 t v /\ deviates m t v = true.
+Proof. exact refuted_more_than_64_additions. Qed.
+
+Theorem C02_refuted_first_addition_absent :
+  exists m t v, wf_ty t /\ wf_val t v /\ in_profile t /\
+    (exists fs so fc ea vals, t = TSeq fs so fc ea /\ v = VSeq vals /\
+       first_addition_absent (skipn (root_len fs ea) (presents fs vals))) /\
+    Known_C02 t v /\ enc m t v = Err E_EXT_INCONSISTENT /\ deviates m t v = true.
+Proof. exact refuted_first_addition_absent. Qed.
+
+Theorem C02_refuted_int_beyond_i64 :
+  exists m t v, wf_ty t /\ wf_val t v /\ in_profile t /\
+    (exists k lo hi ext z, t = TInt k lo hi ext /\ v = VInt z /\ ~ is_i64 z) /\
+    Known_C02 t v /\ deviates m t v = true.
+Proof. exact refuted_int_beyond_i64. Qed.
+
+(* reader side only: the writer agrees with X.691 (fragmented open type), the reader does not decode it *)
+Theorem C02_refuted_open_type_16k_reader :
+  exists m t v, wf_ty t /\ in_profile t /\ Known_C02 t v /\
+    deviates m t v = false /\ reader_misses_x691 m t v = true.
+Proof. exact refuted_open_type_16k_reader. Qed.
+
+(** * non-vacuity: the nested extensible SEQUENCE of C01 (OPTIONAL, DEFAULT, a CHOICE taking its
+      extension alternative, a SEQUENCE OF of 3 elements, three extension additions) *)
+Example C02_nonvacuous :
+  wf_ty ex_ty /\ wf_val ex_ty ex_val /\ in_profile ex_ty /\ sat ex_ty ex_val /\ ~ Known_C02 ex_ty ex_val /\
+  exists bs, x691 ex_ty ex_val = Some bs /\ enc dev_mode ex_ty ex_val = Ok bs /\
+             enc release_mode ex_ty ex_val = Ok bs /\ bl bs = 128 /\
+             write_ty dev_mode ex_ty ex_val w_empty = Ok (w_append w_empty bs) /\
+             read_ty dev_mode ex_ty (r_of_src (src_of_bits (bs ++ [true; false]) (bl bs + 2)))
+             = Ok (ex_val, r_of_src (src_adv (src_of_bits (bs ++ [true; false]) (bl bs + 2)) (bl bs) [true; false])).
+Proof.
+  destruct nonvacuous_c02 as (H1 & H2 & H3 & H4 & H5).
+  exact (conj H1 (conj H2 (conj H3 (conj nonvacuous_sat (conj H4 H5))))).
+Qed.
+
+Print Assumptions C02_reference_is_X691.
+Print Assumptions C02_reference_is_X691_defined.
+Print Assumptions C02_x691_defined_on_values.
+Print Assumptions C02_writer_is_X691.
+Print Assumptions C02_not_a_value_rejected.
+Print Assumptions C02_not_a_value_not_encoded.
+Print Assumptions C02_writer_exact.
+Print Assumptions C02_reader_accepts_X691.
+Print Assumptions C02_known_C01_inside.
+Print Assumptions C02_deviates_means.
+Print Assumptions C02_refuted_size_upper_bound_64k.
+Print Assumptions C02_refuted_fragmentation_16k.
+Print Assumptions C02_refuted_empty_open_type.
+Print Assumptions C02_refuted_mandatory_choice_addition_inline.
+Print Assumptions C02_refuted_more_than_64_additions.
+Print Assumptions C02_refuted_first_addition_absent.
+Print Assumptions C02_refuted_int_beyond_i64.
+Print Assumptions C02_refuted_open_type_16k_reader.
+Print Assumptions C02_nonvacuous.
